@@ -38,4 +38,5 @@ def main(tier):
     chk.run("R-SKIPLOSS", T.skiploss, r, s, cx.sites, modules=("constraints.py", "attribute_checker.py"), floor=2)
     chk.run("R-BOUNDARY", RG.boundary, r, floor=130)
     chk.run("R-INTRANGE", RG.intrange, r, parts=('gate', 'leaf'), floor=150)
+    chk.run("R-ATTRAGREE", V.attragree, cx.repo, floor=5)
     return chk.finish()
